@@ -69,7 +69,7 @@ func verifAcyclic(pages []verifPage) bool {
 }
 
 /* page p (1-based) as a JSON object; link renders the reference to another page */
-func verifPageObject(rng *rand.Rand, pages []verifPage, p int, ordered bool, link func(q int) any) map[string]any {
+func verifPageObject(rng *rand.Rand, pages []verifPage, p int, ordered bool, link func(q int) any, advisory func(q int) any) map[string]any {
 	obj := map[string]any{}
 	kind := "Collection"
 	key := "items"
@@ -101,7 +101,29 @@ func verifPageObject(rng *rand.Rand, pages []verifPage, p int, ordered bool, lin
 	if pg.Next != 0 {
 		obj[nextKey] = link(pg.Next)
 	}
+	/* links that say where else one could go but are no part of the forward walk: pages point back to the
+	   first page, to their predecessor and to the collection they are part of; roots name their last page */
+	if advisory != nil && rng.Intn(2) == 0 {
+		if p > 1 {
+			obj["partOf"] = advisory(1)
+			obj["first"] = advisory(minInt(2, len(pages)))
+			obj["prev"] = advisory(p - 1)
+			if rng.Intn(2) == 0 {
+				obj["last"] = advisory(len(pages))
+			}
+		} else {
+			obj["last"] = advisory(len(pages))
+			obj["current"] = advisory(1)
+		}
+	}
 	return obj
+}
+
+func minInt(a, b int) int {
+	if a < b {
+		return a
+	}
+	return b
 }
 
 func verifRunPaging(out *verifkit.Trace, rng *rand.Rand, sim *verifsim.Sim, sid int, in verifPagingIn, extraCalls int) {
@@ -114,7 +136,9 @@ func verifRunPaging(out *verifkit.Trace, rng *rand.Rand, sim *verifsim.Sim, sid 
 	h := sim.Host("p1")
 	if embedded {
 		var build func(p int) any
-		build = func(p int) any { return verifPageObject(rng, in.Pages, p, ordered, build) }
+		build = func(p int) any {
+			return verifPageObject(rng, in.Pages, p, ordered, build, func(q int) any { return fmt.Sprintf("https://elsewhere.invalid/col/page%d", q) })
+		}
 		root, err = NewCollectionFromObject(build(1).(map[string]any), nil, verifConstructTag)
 	} else {
 		pagePath := func(p int) string {
@@ -128,8 +152,19 @@ func verifRunPaging(out *verifkit.Trace, rng *rand.Rand, sim *verifsim.Sim, sid 
 				if q == -1 {
 					return h.URL(fmt.Sprintf("/col%d/missing", sid))
 				}
+				/* a page is named by its address, or by a stub that only carries the address (and the type) */
+				pageKind := "CollectionPage"
+				if ordered {
+					pageKind = "OrderedCollectionPage"
+				}
+				switch rng.Intn(6) {
+				case 0:
+					return map[string]any{"id": h.URL(pagePath(q)), "type": pageKind}
+				case 1:
+					return map[string]any{"id": h.URL(pagePath(q))}
+				}
 				return h.URL(pagePath(q))
-			})
+			}, func(q int) any { return h.URL(pagePath(q)) })
 			obj["id"] = h.URL(pagePath(p + 1))
 			w := &verifsim.World{Sim: sim}
 			raw := w.Render("p1"+pagePath(p+1), verifsim.Resp{Status: 200, Ct: []string{"activity"}, Body: "obj", JSON: obj}, rng)
